@@ -451,8 +451,61 @@ impl Prop for Read {
     }
 }
 
+/// a 64-bit mix for the per-day choices of the sweeps
+fn mix64(mut x: u64) -> u64 {
+    x = x.wrapping_add(0x9E37_79B9_7F4A_7C15);
+    x = (x ^ (x >> 30)).wrapping_mul(0xBF58_476D_1CE4_E5B9);
+    x = (x ^ (x >> 27)).wrapping_mul(0x94D0_49BB_1331_11EB);
+    x ^ (x >> 31)
+}
+
 pub fn run(env: &mut Env) {
     let t = env.thorough();
+    // every day of the years 0001..=9999 once on the write side and once on the read side (time of
+    // day, offset, precision, fraction chosen from the day number and the seed): a defect confined
+    // to a band of days anywhere in the RFC 3339 domain is met
+    let first = cal::days_from_ymd(1, 1, 2);
+    let last = cal::days_from_ymd(9999, 12, 30);
+    const CH: i64 = 4096;
+    let n_chunks = ((last - first) / CH + 1) as u64;
+    let seed = env.seed;
+    let reps: i64 = if t { 8 } else { 1 };
+    env.run_enum::<Write, _>(n_chunks, move |c| {
+        let lo = first + c as i64 * CH;
+        (lo..(lo + CH).min(last + 1)).flat_map(move |day| {
+            (0..reps).map(move |r| {
+                let h = mix64(day as u64 ^ seed.rotate_left(17) ^ (r as u64) << 50);
+                let ns = (h % 86_400) as i64 * 1_000_000_000 + [0i64, 0, 1, 500_000_000, 999_999_999, 123_456_789][(h >> 20) as usize % 6];
+                let off = [0i32, 0, 3_600, -18_000, 19_800, 86_340, -86_340, 60, -60, 45_900][(h >> 28) as usize % 10];
+                WriteCase { i: Inst { day, ns }, off, prec: ((h >> 36) % 5) as u8, local_now: 0 }
+            })
+        })
+    });
+    env.run_enum::<Read, _>(n_chunks, move |c| {
+        let lo = first + c as i64 * CH;
+        (lo..(lo + CH).min(last + 1)).flat_map(move |day| {
+            (0..reps).map(move |r| {
+                let h = mix64(day as u64 ^ seed.rotate_left(29) ^ 0xABCD ^ (r as u64) << 50);
+                let (y, mo, d) = cal::ymd_from_days(day);
+                let frac = ["", "", "5", "000", "123456789", "999999999", "9999999999"][(h >> 8) as usize % 7].to_string();
+                let zsign = ((h >> 16) % 3) as u8;
+                ReadCase {
+                    y: y as u32,
+                    mo,
+                    d,
+                    h: ((h >> 20) % 24) as u32,
+                    mi: ((h >> 26) % 60) as u32,
+                    s: ((h >> 33) % 60) as u32,
+                    frac,
+                    zsign,
+                    zh: if zsign == 0 { 0 } else { ((h >> 40) % 24) as u32 },
+                    zm: if zsign == 0 { 0 } else { ((h >> 46) % 60) as u32 },
+                    via_from_str: (h >> 52) % 2 == 0,
+                }
+            })
+        })
+    });
+    env.exhaustive_parts.push("C13: every day of the years 0001..=9999 (2 January 0001 .. 30 December 9999) once on the write side and once on the read side, the other components chosen from the day number and the seed".into());
     env.run_random::<Write>(if t { 10_000_000 } else { 1_500_000 });
     env.run_random::<Read>(if t { 10_000_000 } else { 1_500_000 });
 }
